@@ -1186,6 +1186,13 @@ int32 matrixDtlsGetOutdata(ssl_t *ssl, unsigned char **buf)
  */
     if (ssl->outlen == 0 && ssl->appDataExch == 0)
     {
+        /* A session that sent or received a fatal alert, or was closed,
+           has no flight to bring back */
+        if (ssl->flags & SSL_FLAGS_ERROR || ssl->flags & SSL_FLAGS_CLOSED)
+        {
+            *buf = NULL;
+            return PS_PROTOCOL_FAIL;
+        }
 
         /* And now the ugly part.  If we have been receiving records that
            are sent individually and we are successfully midway through an
